@@ -142,7 +142,7 @@ def build():
     U.raw(C.DERIVED, 'assumed derived impls')
     U.raw(C.VALUE_SPECS + C.TRUTHY_SPEC, 'shared vocabulary')
     U.raw(C.TRAIT_FULL, 'CelValueDyn restated')
-    U.raw('impl View for CelByteCode { type V = Seq<ByteCode>; closed spec fn view(&self) -> Seq<ByteCode> { self.inner@ } }\n' + prelude() + S.ITER + SPEC, 'grammar specs')
+    U.raw('impl View for CelByteCode { type V = Seq<ByteCode>; closed spec fn view(&self) -> Seq<ByteCode> { self.inner@ } }\n' + prelude() + S.ITER + SPEC + S.BINDCTX_AMBIENT, 'grammar specs')
     U.raw(C.STD_SPECS, 'assumed std specs')
     U.raw(S.axioms(), 'axioms')
     U.extract(C.CE, 'impl From<SyntaxError> for CelError', fns={'from': A(ret='r', ensures=[('def', 'r == CelError::Syntax(value)')], props=('C01',))})
